@@ -13,6 +13,7 @@
     text_cr_not_recovered_xml attr_lf_not_recovered_xml control_char_not_wellformed_xml
     cache_unobservable noescape_cleared_by_end site_after_end_is_escaped escaping_by_enclosing_elements
     two_scripts_then_site_escaped empty_script_keeps_escaping
+    structure_preserved_markup_strip_partial markup_attr_newline_normalised reread_tree
 -/
 import Genshi.Lemmas.Subst
 import Genshi.Lemmas.SubstTmpl
@@ -22,6 +23,8 @@ import Genshi.Lemmas.SubstNonInt
 import Genshi.Lemmas.SubstSplice
 import Genshi.Lemmas.SubstNest
 import Genshi.Lemmas.SubstCache
+import Genshi.Lemmas.SubstSpliceWs
+import Genshi.Lemmas.SubstTree
 namespace Genshi.Props.C01
 open Genshi.Escape Genshi.Str Genshi.Subst
 
@@ -456,7 +459,7 @@ theorem attrs_blank_dropped :
     not raise (domain of C18).  `py:attrs` is covered as the code is (blank values dropped); its
     value-level statement is `attrs_site_partial`.  XML-level normalisation is outside `readDoc`;
     see `text_roundtrip_xml_partial` / `attr_roundtrip_xml_partial`. -/
-theorem structure_preserved_partial (m : Method) (strip : Bool) (T : List Node) (env : Env)
+theorem structure_preserved_partial (m : Method) (strip : Bool) (T : List Subst.Node) (env : Env)
     (hT : nodesOkB m T = true) (hdom : listOk env T = true) (henv : EnvOk env) :
     readDoc m (serialize m strip (renderList env T)) =
       some (if strip then coalesceStrip m (expectedList env T) else coalesce (expectedList env T)) := by
@@ -533,14 +536,41 @@ theorem emit_both_implementations (m : Method) (v : List Char) :
     `%`, not void under html, the operands are plain strings of the context, and there are as many
     as holes.  MISSING: `strip_whitespace=True` for these sites (the filter normalises the whole text
     run, attribute values inside the author's tags included), mapping operands, safe *values* with tags. -/
-theorem structure_preserved_markup_partial (m : Method) (T : List Node) (env : Env)
+theorem structure_preserved_markup_partial (m : Method) (T : List Subst.Node) (env : Env)
     (hT : nodesOkM m T = true) (hdom : listOk env T = true) (henv : EnvOk env) :
     readDoc m (serialize m false (renderList env T)) = some (coalesce (expectedList env T)) :=
   (list_sem m T env hT hdom henv).read
 
+/-- **… and with whitespace stripping.**  The `WhitespaceFilter` buffers the `Markup` text of such a
+    site together with the character data around it and normalises the run in one piece — the author's
+    tags included.  Both regular expressions only look at the following character, so a tag (it starts
+    with `<`, ends with `>` and holds no newline) splits the run: `normWs (X ++ tag ++ W) = normWs X ++
+    tag ++ normWs W` (`normWs_tag`), and the text is written exactly as its tags would be written as
+    elements (`SameOutS.splice`).  Re-reading gives the author's elements and the template's, every
+    operand and every other substituted value verbatim up to the documented normalisation of
+    character data outside `pre`/`textarea` (`coalesceStrip`).
+    Hypotheses: `nodesOkW` = `nodesOkM` plus, for these sites: the author's elements are not
+    whitespace-preserving ones (the filter does not see them as elements), their tags are balanced,
+    and no attribute value inside them — literal or operand — holds a newline (FALSE without it:
+    the filter's normalisation reaches into the value, witness `markup_attr_newline_normalised`).
+    MISSING: mapping operands, `+`/`join` with tagged author markup, safe *values* with tags. -/
+theorem structure_preserved_markup_strip_partial (m : Method) (T : List Subst.Node) (env : Env)
+    (hT : nodesOkW m T = true) (hdom : listOk env T = true) (henv : EnvOk env) :
+    readDoc m (serialize m true (renderList env T)) = some (coalesceStrip m (expectedList env T)) :=
+  (list_semS m T env hT hdom henv).read
+
+/-- `<p>${Markup('<a title="%s">x</a>') % ('a \n\nb',)}</p>` rendered with whitespace stripping: the value comes
+    back as `a\nb` — the filter normalised inside the attribute value (why the hypothesis is there) -/
+theorem markup_attr_newline_normalised :
+    readDoc .xml (serialize .xml true (renderList []
+      [.el ['p'] [] none [.site (.fmtp [.open ['a'] [(['t'], .hole)], .text ['x'], .close ['a']]
+        [.lit (.str ['a', ' ', '\n', '\n', 'b'])])]]))
+      = some [.start ['p'] [], .start ['a'] [(['t'], ['a', '\n', 'b'])], .text ['x'] false, .end_ ['a'], .end_ ['p']] := by
+  decide
+
 /-- **What is re-read is a well-nested forest**: every END closes the innermost open START of the
     same name and nothing stays open — the element *tree* of the template, not just a sequence of tags. -/
-theorem reread_wellnested (m : Method) (strip : Bool) (T : List Node) (env : Env)
+theorem reread_wellnested (m : Method) (strip : Bool) (T : List Subst.Node) (env : Env)
     (hT : nodesOkB m T = true) (hdom : listOk env T = true) (henv : EnvOk env) :
     ∃ out, readDoc m (serialize m strip (renderList env T)) = some out ∧ nest [] out = some [] := by
   refine ⟨_, structure_preserved_partial m strip T env hT hdom henv, ?_⟩
@@ -548,6 +578,18 @@ theorem reread_wellnested (m : Method) (strip : Bool) (T : List Node) (env : Env
   cases strip with
   | false => simpa [nest_coalesce] using hb
   | true => simpa [nest_coalesceStrip] using hb
+
+/-- **The result as a tree.**  The re-read events, embedded into the shared event type (`toCore`: plain
+    names), are the flattening of exactly one forest of `Core.Node`s: the element *tree* of the template
+    with the substituted values as text leaves and attribute values. -/
+theorem reread_tree (m : Method) (strip : Bool) (T : List Subst.Node) (env : Env)
+    (hT : nodesOkB m T = true) (hdom : listOk env T = true) (henv : EnvOk env) :
+    ∃ out forest, readDoc m (serialize m strip (renderList env T)) = some out ∧
+      okList forest = true ∧ flattenList forest = out.map toCore ∧
+      ∀ other, okList other = true → flattenList other = out.map toCore → other = forest := by
+  obtain ⟨out, h1, h2⟩ := reread_wellnested m strip T env hT hdom henv
+  obtain ⟨forest, ⟨h3, h4⟩, h5⟩ := Genshi.Parse.wellNested_unique_forest _ (wellNested_toCore out h2)
+  exact ⟨out, forest, h1, h3, h4, h5⟩
 
 /-- **Template data cannot change the structure** (non-interference).  Replace the text of
     every value that is not marked safe — every `str`, the `__str__` of every object, in the
@@ -558,14 +600,14 @@ theorem reread_wellnested (m : Method) (strip : Bool) (T : List Node) (env : Env
     Hypotheses: those of `structure_preserved_partial`, and `KeepsBlank f` — `f` does not make a
     `py:attrs` value blank or non-blank (the one place where the text of a value decides whether
     an attribute exists: finding C01-attrs-blank-dropped). -/
-theorem payload_is_data (m : Method) (strip : Bool) (T : List Node) (env : Env) (f : List Char → List Char)
+theorem payload_is_data (m : Method) (strip : Bool) (T : List Subst.Node) (env : Env) (f : List Char → List Char)
     (hT : nodesOkB m T = true) (hdom : listOk env T = true) (henv : EnvOk env) (hf : KeepsBlank f) :
     ∃ out out',
       readDoc m (serialize m strip (renderList env T)) = some out ∧
-      readDoc m (serialize m strip (renderList (env.map (·.retext f)) (Node.retextList f T))) = some out' ∧
+      readDoc m (serialize m strip (renderList (env.map (·.retext f)) (Subst.Node.retextList f T))) = some out' ∧
       tagsOf out' = tagsOf out := by
   have h1 := structure_preserved_partial m strip T env hT hdom henv
-  have h2 := structure_preserved_partial m strip (Node.retextList f T) (env.map (·.retext f))
+  have h2 := structure_preserved_partial m strip (Subst.Node.retextList f T) (env.map (·.retext f))
     (by rw [nodesOkB_retext]; exact hT) (by rw [listOk_retext]; exact hdom) (envOk_retext f env henv)
   refine ⟨_, _, h1, h2, ?_⟩
   have hsk := list_skel f hf T env
@@ -579,7 +621,7 @@ theorem payload_is_data (m : Method) (strip : Bool) (T : List Node) (env : Env) 
 
 /-- The rendered stream of a template of the grammar is always one the serializer / reader
     theorems apply to, and its START / END skeleton is the template's. -/
-theorem render_stream_ok (m : Method) (T : List Node) (env : Env)
+theorem render_stream_ok (m : Method) (T : List Subst.Node) (env : Env)
     (hT : nodesOkB m T = true) (hdom : listOk env T = true) (henv : EnvOk env) :
     (∀ e ∈ renderList env T, evOkB m e = true) ∧ TextsOk (renderList env T) ∧
     emptyOkGo m none (renderList env T) = true := by
@@ -726,7 +768,7 @@ example : (fillEsc examplePieces [['"', '>', '<'], ['<', '/', 'a', '>']]).map (f
           .text ['1', '0', '0', '%', ' ', '<', '/', 'a', '>'] false, .end_ ['a']] := by decide
 
 /-- `<p>${Markup('<a href="%s" class="x&#34;y">100%% %s</a>') % (u, v)}!</p>` -/
-def exampleM : List Node :=
+def exampleM : List Subst.Node :=
   [.el ['p'] [] none
     [.site (.fmtp examplePieces [.lit (.str ['"', '>', '<']), .lit (.str ['<', '/', 'a', '>'])]), .lit ['!']]]
 
@@ -738,9 +780,14 @@ example : readDoc .html (serialize .html false (renderList [] exampleM)) =
           .text ['1', '0', '0', '%', ' ', '<', '/', 'a', '>'] false, .end_ ['a'],
           .text ['!'] false, .end_ ['p']] := by decide
 
+example : nodesOkW .html exampleM = true ∧ nodesOkW .xhtml exampleM = true := by decide
+
+example : readDoc .html (serialize .html true (renderList [] exampleM)) =
+    some (coalesceStrip .html (expectedList [] exampleM)) := by decide
+
 /-- a template with an interpolated attribute, `py:attrs`, a loop, a `Markup` operator and a
     builder call: inside the hypotheses of `structure_preserved` for all methods -/
-def exampleT : List Node :=
+def exampleT : List Subst.Node :=
   [.el ['d', 'i', 'v'] [(['i', 'd'], .interp [.lit ['x', '-'], .expr (.val (.one (.str ['"', '>', '<']))) ])]
       (some [(['t', 'i', 't', 'l', 'e'], .lit (.str [' ', '<', 'b', '>', ' ']))])
       [.loop (.val (.many [.str ['<', 'i', '>'], .num ['4', '2'], .none]))
